@@ -337,4 +337,8 @@ add("C12", "poisson left sqrt clamps the rate", "nifty/re/likelihood_impl.py", "
 add("C12", "one complex flag for the whole tree", "nifty/re/likelihood_impl.py", "        self.iscomplex = tree_map(\n            lambda x: jnp.issubdtype(x.dtype, jnp.complexfloating), data\n        )", "        self.iscomplex = bool(jnp.issubdtype(result_type(data), jnp.complexfloating))", "R12.9")
 add("C13", "block-diagonal dtype table over the given operators only", "nifty/cl/operators/block_diagonal_operator.py", "        self._dtype = {kk: getattr(operators.get(kk), \"sampling_dtype\", None)\n                       for kk in domain.keys()}", "        self._dtype = {kk: getattr(oo, \"sampling_dtype\", None)\n                       for kk, oo in operators.items()}", "R13.9")
 add("C13", "identity block refusal tests presence only", "nifty/cl/operators/block_diagonal_operator.py", "if self._dtype is None or self._dtype.get(key) is None:", "if self._dtype is None or key not in self._dtype:", "R13.9")
+add("C18", "failed inversion refusal built but not raised", "nifty/re/evi.py", "        raise ValueError(\"S: failed to invert map\")", "        ValueError(\"S: failed to invert map\")", "R18.6")
+add("C20", "type refusal returned", "nifty/re/evi.py", "        raise TypeError(msg)", "        return TypeError(msg)", "R20.4")
+add("C17", "missing function refusal dropped", "nifty/re/optimize.py", "            raise ValueError(\"no function specified\")", "            ValueError(\"no function specified\")", "R17.9")
+add("C27", "boolean parse refusal dropped", "nifty/cl/minimization/config/optimize_kl_config.py", "                        raise ValueError(f\"{tmp[1]} is not boolean\")", "                        ValueError(f\"{tmp[1]} is not boolean\")", "R27.12")
 VARIANTS = V
